@@ -437,9 +437,16 @@ func (u *Unit) zeroInit(st *State, a *Term, t types.Type) {
 }
 
 func (u *Unit) zeroArray(st *State, base *Term, elem types.Type, n *Term) {
-	for _, lf := range u.leaves(elem, nil) {
+	u.zeroArrayPath(st, base, elem, n, nil)
+}
+
+// zeroArrayPath: the elements [0,n) of the array at base read as zero, including every element of arrays nested in them.
+func (u *Unit) zeroArrayPath(st *State, base *Term, elem types.Type, n *Term, prefix []int) {
+	for _, lf := range u.leaves(elem, prefix) {
 		if lf.kind == "array" {
-			unsupported("nested array zeroing")
+			at := lf.t.Underlying().(*types.Array)
+			u.zeroArrayPath(st, base, at.Elem(), n, append(append([]int{}, lf.path...), anyIdxSfx))
+			continue
 		}
 		m := u.mem(st, lf.kind, kindSort(lf.kind))
 		st.mems[lf.kind] = u.MC.ZeroRange(m, base, u.C.BVu(0, 64), n, lf.path)
